@@ -66,6 +66,10 @@ fn main() {
             let s = conv::run(seed, args.usize("rounds", 50));
             report::write_out(out, &s.to_json("C18", seed));
         }
+        "c18p" if args.flag("once") => {
+            let s = c18p::run_once(seed, args.usize("shard", 0), args.usize("of", 1), args.str("only"));
+            report::write_out(out, &s.to_json("C18", seed));
+        }
         "c18p" => {
             let s = c18p::run(seed, args.usize("samples", 32), workers);
             report::write_out(out, &s.to_json("C18", seed));
@@ -103,6 +107,11 @@ fn main() {
                 "C18" if j["part"].as_str() == Some("P") => c18p::replay(&j),
                 "C18" if j["part"].as_str() == Some("I") => c18i::replay(&j),
                 "C18" if j["part"].as_str() == Some("conv") && j.get("rounds").is_some() => conv::replay(&j),
+                "C18" if j["part"].as_str() == Some("M") && j["case"]["kind"].as_str() == Some("op") => {
+                    // a monitor abort inside a plain op call: run that op again under the same monitor
+                    let s = c18p::run_once(seed, 0, 1, j["case"]["fn"].as_str());
+                    s.violations.into_iter().next().map(|v| (v.class, v.detail))
+                }
                 "C18" if j["part"].as_str() == Some("M") => {
                     arena::install_crash_monitor();
                     c18m::replay(&j)
